@@ -19,6 +19,12 @@ from gen import c10ypgen as G
 KNOWN_COMMENT = "block comment containing a line starting with '/' after a newline is terminated early"
 KNOWN_ACTION_SPAN = "action span is computed from the trimmed action text and does not skip the whitespace after '{'"
 
+# After the proposed repairs are applied to /repo set these to True: the mirror is then run in its
+# repaired variant and the corresponding known-defect classification is switched off.
+COMMENT_FIXED = False
+ACTION_SPAN_FIXED = False
+MODEL_FLAGS = (" fc" if COMMENT_FIXED else "") + (" fa" if ACTION_SPAN_FIXED else "")
+
 CORPUS = [
     ("O", "%%\nA: /* a\n// b */ 'a';"),                       # DESIGN §9 comment defect
     ("O", "%%\nA: 'a' {  act };"),                            # action span with leading blanks
@@ -92,8 +98,8 @@ def run_part(ctx, tag="C10b"):
             printed.append((ag["kind"], text, exp, style, ag, lay.trigger_used))
     lines = ["%s %s" % (k, hexs(t)) for k, t, _, _, _, _ in printed]
     impl = core.run_lines([exe], lines)
-    model = core.run_lines([mexe], lines)
-    fixed_lines = [l + " fixed" for l, p in zip(lines, printed) if p[5]]
+    model = core.run_lines([mexe], [l + MODEL_FLAGS for l in lines])
+    fixed_lines = [l + " fc" + MODEL_FLAGS for l, p in zip(lines, printed) if p[5]]
     fixed_out = dict(zip(fixed_lines, core.run_lines([mexe], fixed_lines)))
     n_oracle_bad = n_tie_bad = n_known_comment = n_known_action = 0
     for (kind, text, exp, style, ag, trig), line, a, m in zip(printed, lines, impl, model):
@@ -108,7 +114,7 @@ def run_part(ctx, tag="C10b"):
             continue
         tr = G.parse_transcript(strip_bad(a))
         diffs = G.oracle(text, exp, tr)
-        if " # BADSPAN" in a and not badspans_are_action_spans(text, a):
+        if " # BADSPAN" in a and (ACTION_SPAN_FIXED or not badspans_are_action_spans(text, a)):
             diffs.append(("span", "span off a character boundary / out of range: " + a[a.index(" # BADSPAN"):][:80]))
         # ---- classify
         unexplained = []
@@ -119,16 +125,16 @@ def run_part(ctx, tag="C10b"):
                 act = exp["prods"][pi]["action"]
                 got = tr["prods"][pi]["action"][1]
                 brace = exp["prods"][pi]["after"]
-                if act[2] != "" and got == (brace + 1, brace + 1 + G.blen(act[0])):
+                if not ACTION_SPAN_FIXED and act[2] != "" and got == (brace + 1, brace + 1 + G.blen(act[0])):
                     n_known_action += 1
                     ctx.violation({"what": "action span does not select the action text", "kind": kind, "text": text,
                                    "detail": detail}, known_key=KNOWN_ACTION_SPAN)
                     continue
             unexplained.append((cls, detail))
-        if unexplained and trig and has_trigger(text):
+        if unexplained and trig and has_trigger(text) and not COMMENT_FIXED:
             # known comment defect: the repaired scan (mirror with fixed=true, proved to skip such comments:
             # ws_skips_layout_fixed) must give exactly the expected AST
-            fo = fixed_out.get(line + " fixed", "")
+            fo = fixed_out.get(line + " fc" + MODEL_FLAGS, "")
             fd = [x for x in G.oracle(text, exp, G.parse_transcript(fo)) if x[0] != "action-span"] if fo[:2] in ("OK", "ER") else [("result", fo)]
             if not fd:
                 n_known_comment += 1
@@ -152,7 +158,7 @@ def run_part(ctx, tag="C10b"):
     for k, t in CORPUS:
         muts.append((k, t))
     base = [(k, t) for k, t, _, _, _, _ in printed]
-    for _ in range(ctx.n(9000, 120000)):
+    for _ in range(ctx.n(16000, 120000)):
         k, t = rng.choice(base)
         m = G.mutate(rng, t)
         if rng.random() < 0.25:
@@ -171,7 +177,7 @@ def run_part(ctx, tag="C10b"):
             for c in range(len(t) + 1):
                 muts.append((k, t[:c] + ch + t[c:]))
     # random soup over the parser's alphabet
-    for _ in range(ctx.n(1500, 20000)):
+    for _ in range(ctx.n(3000, 20000)):
         muts.append((rng.choice("OGE"), "".join(rng.choice(G.MUT_CHARS + ["A", "b", " ", "\n", "'x'", "A: ", ";"]) for _ in range(rng.randint(1, 14)))))
     seen = set()
     mlines = []
@@ -184,7 +190,7 @@ def run_part(ctx, tag="C10b"):
         mlines.append(l)
         mcases.append((k, t))
     impl = core.run_lines([exe], mlines)
-    model = core.run_lines([mexe], mlines)
+    model = core.run_lines([mexe], [l + MODEL_FLAGS for l in mlines])
     n_hdr = 0
     for (k, t), line, a, m in zip(mcases, mlines, impl, model):
         head = a.split(" ", 1)[0]
@@ -205,7 +211,7 @@ def run_part(ctx, tag="C10b"):
         if " # BADSPAN" in a:
             ctx.violation({"what": "a span is out of range or off a character boundary", "kind": k, "text": t, "impl": a[:1500],
                            "replay_cmd": "echo '%s' | .work/target/release/c10yp" % line},
-                          known_key=KNOWN_ACTION_SPAN if badspans_are_action_spans(t, a) else None)
+                          known_key=KNOWN_ACTION_SPAN if (not ACTION_SPAN_FIXED and badspans_are_action_spans(t, a)) else None)
         if strip_bad(a) != m:
             n_tie_bad += 1
             report_tie(ctx, k, t, line, a, m)
